@@ -249,11 +249,35 @@ func c05Scenario(name string, p map[string]any) *schedScenario {
 type seqMon struct {
 	next int
 	sent map[int]string
+	ids  [2]string // accepting side: identifiers established by the last answered Logon
 }
 
 func (m *seqMon) Key() string { return fmt.Sprint(m.next) }
 
 func (m *seqMon) Step(w *world, ev event, outs []outMsg) (string, string) {
+	if w.cfg.Role == "acc" {
+		// session identifiers: every message since the last Logon the session answered with a Logon carries the
+		// identifiers that Logon established (mirrored from the peer's header)
+		for _, o := range outs {
+			if prev, ok := m.sent[seqOf(o.Msg)]; ok && prev == string(o.Msg) {
+				continue // a byte-identical retransmission keeps the identifiers it was first sent with
+			}
+			if mtype(o.Msg) == "A" && strings.HasPrefix(ev.Name, "Logon(") {
+				m.ids = [2]string{w.self, w.peer}
+				if strings.Contains(ev.Name, "other-ids") {
+					m.ids = [2]string{"DESK", "OTHER"}
+				}
+			}
+			if m.ids[0] == "" || !w.s.IsLogged() && mtype(o.Msg) == "3" {
+				continue // (a Reject to somebody who is not logged on is addressed to that somebody)
+			}
+			snd, _ := get(o.Msg, "49")
+			tgt, _ := get(o.Msg, "56")
+			if snd != m.ids[0] || tgt != m.ids[1] {
+				return "history-identifiers", fmt.Sprintf("after %s: %s carries 49=%s 56=%s, the last answered Logon established %s -> %s", ev.Name, typeName(mtype(o.Msg)), snd, tgt, m.ids[0], m.ids[1])
+			}
+		}
+	}
 	for _, o := range outs {
 		q := seqOf(o.Msg)
 		if q == m.next {
